@@ -2,6 +2,7 @@
    ONLY statements, each closed by `exact <lemma>`, with Print Assumptions. *)
 From Coq Require Import List ZArith NArith Bool.
 From AN Require Import Model.Avail Model.Srv Proofs.AvailFacts Proofs.SrvInv Proofs.SrvLog Proofs.SrvTheorems.
+From AN Require Import Proofs.AvailStartup.
 Import ListNotations.
 
 (* The log of a run (newest first) contains a ghost event for every worker the accept loop passes over
@@ -68,6 +69,18 @@ Example C04_bits_example :
             /\ available a = true /\ wf a.
 Proof. eexists. split; [reflexivity|]. repeat split; vm_compute; auto. Qed.
 
+(* Start-up: `Availability::set_available_all` — with W <= 512 workers exactly the indices below W are marked available, whatever
+   128-bit word they fall into (`init` marks every handle, as `Accept::new_with_sockets` does). *)
+Theorem C04_startup_all_available : forall (W : nat) (kinds : list bool) (j : N),
+  (W <= 512)%nat -> (j < 512)%N ->
+  getb (av (init W kinds)) j = (j <? N.of_nat W)%N.
+Proof. exact startup_all_available. Qed.
+
+Example C04_startup_example :
+  map (getb (av (init 130 [false]))) [0; 127; 128; 129; 130; 511]%N = [true; true; true; true; false; false].
+Proof. vm_compute. reflexivity. Qed.
+
+
 Print Assumptions C04_rr.
 Print Assumptions C04_skip.
 Print Assumptions C04_bits_independent.
@@ -76,3 +89,4 @@ Print Assumptions C04_bits_panic.
 Print Assumptions C04_bits_any.
 Print Assumptions C04_bits_wf.
 Print Assumptions C04_bits_offset.
+Print Assumptions C04_startup_all_available.
